@@ -254,14 +254,15 @@ impl Builder {
             let func = &self.module.functions[sel_fn];
 
             for (idx, blk) in func.blocks.iter().enumerate() {
-                // OpReturn must be the last instruction in a block
-                let last_instr = blk.instructions.last().unwrap();
-
-                match last_instr.class.opcode {
-                    spirv::Op::Return | spirv::Op::ReturnValue => {
-                        result.push(idx);
+                // OpReturn must be the last instruction in a block; a block that
+                // has no instructions yet does not end in one.
+                if let Some(last_instr) = blk.instructions.last() {
+                    match last_instr.class.opcode {
+                        spirv::Op::Return | spirv::Op::ReturnValue => {
+                            result.push(idx);
+                        }
+                        _ => {}
                     }
-                    _ => {}
                 }
             }
         }
